@@ -270,6 +270,8 @@ impl<Key, Value> CacheD<Key, Value>
 
         let update_response
             = self.store.update(&key, value, time_to_live, request.remove_time_to_live);
+        #[cfg(cached_verif)]
+        crate::cache::verif::point("upsert.after_store_update");
 
         if !update_response.did_update_happen() {
             let value = update_response.value();
